@@ -44,6 +44,9 @@ func ruleC19(c *Ctx) {
 		return
 	}
 	up := "call[strings.ToUpper](param[0])"
+	// self-complementarity is C11's reverse complement on A, C, G, T
+	checkRCShape(c, "TERM")
+	checkComplementOracleOn(c, "TERM", "ACGT")
 	rc := "call[poly/transform.ReverseComplement](" + up + ")"
 	symCond := "binop[==](" + rc + ", " + up + ")"
 	last := "index(" + up + ", binop[-](call[builtin:len](" + up + "), const[1]))"
